@@ -142,6 +142,16 @@ def _check(prog, rep):
         cases.add(2)
         # narrowing
         if ns == SI:
+            # a later line may leave the indent alone only after comparing it char by char with the line's prefix
+            # to the end (no mismatch) and finding the prefix not shorter: then the indent is a prefix of the line
+            exhausted = any(a[0] == "variant" and a[2] == "None" and pol and a[1][0] == "callm" and a[1][1] == "Iterator::next"
+                            and a[1] != scan.next_call for a, pol in tr.facts)
+            notshorter = prefix is not None and GE0(poly(("call", "str::len", (prefix,))) - poly(("call", "str::len", (SI,)))) in nfs
+            r5.check(exhausted and notshorter, "keep-needs-evidence",
+                     "the subsequent indent is kept only if it matched the line's prefix to its end", "zip exhausted, prefix not shorter",
+                     "on a later line the subsequent indent is left unchanged without having been compared with that line's prefix "
+                     "(comparison exhausted: %s, prefix not shorter: %s): it need not be a prefix of the line, and unfill slices the "
+                     "line at its length" % (exhausted, notshorter), site=site)
             continue
         if prefix is not None and ns == prefix:
             plen = poly(("call", "str::len", (prefix,)))
